@@ -54,6 +54,7 @@ pub struct Uplinks {
     write_queue: VecDeque<(UplinkKind, u64)>, //Queue tracking which uplink should be written next.
     special_queue: VecDeque<SpecialAction>, //Queue of special actions (primarily link/unlink messages) which take precedence over uplinks.
     completion: promise::Sender<DisconnectionReason>, //Promise to be satisfied when the remote is closed.
+    registration: u64, //Distinguishes successive registrations of the same remote ID.
 }
 
 /// The type of entries that can be pushed into the queue.
@@ -87,6 +88,7 @@ impl Uplinks {
     ) -> Self {
         let sender = RemoteSender::new(writer, identity, remote_id, node);
         Uplinks {
+            registration: 0,
             writer: Some((sender, Default::default())),
             value_uplinks: Default::default(),
             supply_uplinks: Default::default(),
@@ -381,6 +383,19 @@ impl Uplinks {
                 }
             }
         }
+    }
+
+    /// Mark these uplinks (and their writer) as belonging to a numbered registration of the remote ID.
+    pub fn for_registration(mut self, registration: u64) -> Self {
+        self.registration = registration;
+        if let Some((sender, buffer)) = self.writer.take() {
+            self.writer = Some((sender.for_registration(registration), buffer));
+        }
+        self
+    }
+
+    pub fn registration(&self) -> u64 {
+        self.registration
     }
 
     /// Dispose of the uplinks, providing the specified reason.
